@@ -515,31 +515,30 @@ func translate(ctx *context, args []Datum) (retLit Datum) {
 	from := args[1].Literal("translate()")
 	to := args[2].Literal("translate()")
 
-	if len(src) == 0 || len(from) == 0 {
-		return NewLiteralDatum(src)
+	// XPath 1.0 4.2: every character of src that occurs in from is replaced
+	// by the character at the same position in to (the first occurrence in
+	// from decides), or removed if to is too short; positions count
+	// characters, and a replacement is not translated again.
+	fromRunes := []rune(from)
+	toRunes := []rune(to)
+	var b strings.Builder
+	for _, c := range src {
+		idx := -1
+		for i, f := range fromRunes {
+			if f == c {
+				idx = i
+				break
+			}
+		}
+		switch {
+		case idx < 0:
+			b.WriteRune(c)
+		case idx < len(toRunes):
+			b.WriteRune(toRunes[idx])
+		}
 	}
 
-	var toChar string
-	var alreadyTranslated = make(map[string]bool)
-	for index, fromChar := range from {
-		// Ensure we don't translate twice.
-		if _, present := alreadyTranslated[string(fromChar)]; present {
-			continue
-		}
-		alreadyTranslated[string(fromChar)] = true
-
-		// Work out required replacement / removal
-		if index < len(to) {
-			toChar = to[index : index+1]
-		} else {
-			toChar = ""
-		}
-
-		src = strings.Replace(src, string(fromChar), toChar,
-			-1 /* replace all */)
-	}
-
-	return NewLiteralDatum(src)
+	return NewLiteralDatum(b.String())
 }
 
 func xBoolean(ctx *context, args []Datum) Datum {
